@@ -537,6 +537,10 @@ type Parser struct {
 	err     error // lexer/parser error
 	readErr error // got a read error, but bytes left
 	readEOF bool  // [Parser.src] already gave us an [io.EOF] error
+	// contAtEOF is set when the input ended right after an escaped newline,
+	// so that any error is reported as incomplete: a word, reserved word
+	// or operator may continue on the next line.
+	contAtEOF bool
 
 	tok token  // current token
 	val string // current value (valid if tok is _Lit*)
@@ -609,6 +613,7 @@ const bufSize = 1 << 10
 
 func (p *Parser) reset() {
 	p.tok, p.val = illegalTok, ""
+	p.contAtEOF = false
 	p.eqlOffs = 0
 	p.bs, p.bsp = nil, 0
 	p.offs, p.line, p.col = 0, 1, 1
@@ -1094,7 +1099,7 @@ func (p *Parser) posErr(pos Pos, format string, args ...any) {
 		Filename:   p.f.Name,
 		Pos:        pos,
 		Text:       fmt.Sprintf(format, args...),
-		Incomplete: p.tok == _EOF && p.Incomplete(),
+		Incomplete: p.tok == _EOF && p.Incomplete() || p.contAtEOF,
 	})
 }
 
